@@ -458,8 +458,8 @@ func (hp *c18HistPool) runPhase(r *eng.Run, va *c18HistVariant, clock int, earli
 
 func c18HistTypes(thorough bool) []string {
 	if thorough {
-		// three types with a timestamp (one of them sequence forming), the two types without
-		return []string{"model", "serial", "validation-set", "account-key", "system-user"}
+		// one type with a timestamp, the two types without (account-key: its own consistency check searches the account-keys)
+		return []string{"model", "account-key", "system-user"}
 	}
 	// one type with a timestamp (crossed with every timestamp point), one without
 	return []string{"model", "system-user"}
